@@ -79,6 +79,18 @@ func c14Model(r *rand.Rand) *openfgav1.AuthorizationModel {
 		}
 		m.TypeDefinitions = append(m.TypeDefinitions, td)
 	}
+	if r.Intn(40) == 0 {
+		// many types (50-110): thresholds of batching / parallel rendering, sort routines on long lists
+		perm := r.Perm(50 + r.Intn(60))
+		for _, k := range perm {
+			td := &openfgav1.TypeDefinition{Type: fmt.Sprintf("bulk_%03d", k)}
+			if r.Intn(3) > 0 {
+				td.Relations = map[string]*openfgav1.Userset{"member": gen.This()}
+				td.Metadata = &openfgav1.Metadata{Relations: map[string]*openfgav1.RelationMetadata{"member": {DirectlyRelatedUserTypes: []*openfgav1.RelationReference{{Type: "user"}}}}}
+			}
+			m.TypeDefinitions = append(m.TypeDefinitions, td)
+		}
+	}
 	if r.Intn(7) == 0 {
 		// NOT modular (no type carries a module) but relations / conditions / types carry stray attribution, as a
 		// model assembled by hand or by another tool may: the order stays "by name", the option only adds comments
